@@ -66,7 +66,10 @@ def _job_comprehensions(ctx):
             for t_, nm in sf:
                 # rename the source comprehension's variables to this comprehension's
                 filters.append(rename_names(t_, dict(zip(nm, names))) if nm and len(nm) == 2 else t_)
-            out.append((c, names[0], names[1], filters + list(g.ifs)))
+            conj = []
+            for t_ in filters + list(g.ifs):
+                conj += list(t_.values) if isinstance(t_, ast.BoolOp) and isinstance(t_.op, ast.And) else [t_]
+            out.append((c, names[0], names[1], conj))
     return (f, out) if out else None
 
 
@@ -363,7 +366,32 @@ def r3(ctx):
     um = next((kws[i] for i, d_ in enumerate(ds) if d_ and d_[1]), None)
     base = next((d_[0] for d_ in ds if d_ and not d_[1]), None)
     ok = ok and len(ds) == 2 and all(d_ is not None for d_ in ds) and {d_[1] for d_ in ds} == {True, False} and ds[0][0] == ds[1][0]
-    ctx.emit('C05-R3', ok, BTM, c, f'molecule source = chain over {kws}; `{um}` is a copy of `{base}` with contig "*"' if ok else f'chain arguments {kws} are not (unmapped copy, mapped) of one argument dict', key='chain')
+    # the pass over the unplaced reads is not optional: the chain is built on every path (an index may report 0 reads without a coordinate
+    # although fetch('*') returns them - the optional n_no_coor field of a .bai)
+    guards = [(t_, pol) for t_, pol in (reach_conds(f.body, c) or [])]
+    if guards:
+        ctx.emit('C05-R3', False, BTM, c, f'the iterator over the unplaced reads (contig "*") is only chained in when `{"" if guards[0][1] else "not "}{src(guards[0][0])}`: otherwise the single-process '
+                 f'pipeline never visits reads without a coordinate and they are missing from the output', key='chain', what=f'{ST}: the unmapped pass is conditional')
+        return
+    if not ok:
+        # an iterator argument may be a local holding the mapped / unmapped iterator built before
+        def resolve(a):
+            if isinstance(a, ast.Name):
+                dd = [s_.value for s_ in walk_no_nested(f) if isinstance(s_, ast.Assign) and len(s_.targets) == 1 and src(s_.targets[0]) == a.id]
+                if len(dd) == 1:
+                    return dd[0]
+            return a
+        args2 = [resolve(a) for a in c.args]
+        if len(args2) == 2 and all(isinstance(a, ast.Call) and src(a.func) == 'molecule_iterator' for a in args2):
+            kwe = [a.keywords[0].value if a.keywords and a.keywords[0].arg is None else None for a in args2]
+            kws = [src(e_) if e_ is not None else None for e_ in kwe]
+            ds = [describe(e_) for e_ in kwe]
+            um = next((kws[i] for i, d_ in enumerate(ds) if d_ and d_[1]), None)
+            base = next((d_[0] for d_ in ds if d_ and not d_[1]), None)
+            ok = all(d_ is not None for d_ in ds) and {d_[1] for d_ in ds} == {True, False} and ds[0][0] == ds[1][0]
+    recognised = ok or (len(ds) == 2 and all(d_ is not None for d_ in ds))
+    ctx.emit('C05-R3', ok, BTM, c, f'molecule source = chain over {kws}; `{um}` is a copy of `{base}` with contig "*"' if ok else f'chain arguments {kws} are not (unmapped copy, mapped) of one argument dict', key='chain',
+             undecided=not recognised)
     # the loop writes every molecule: write_tags then write_pysam unless no_source_reads
     loops = [l for l in walk_no_nested(f) if isinstance(l, ast.For) and 'molecule_iterator_exec' in src(l.iter)]
     okw = len(loops) == 1
@@ -686,7 +714,8 @@ def r7(ctx):
 def r8(ctx):
     from . import C07
     from ..core import include
-    include(ctx, C07, [C07.r6], 'C05-R8')
+    # ... and a molecule leaves the buffers only by being finalised and yielded (C07-R1 / R3): dropped molecules are records never written
+    include(ctx, C07, [C07.r6, C07.r1, C07.r3], 'C05-R8')
 
 
 @rule('C05', 'C05-R9', 'mate numbers are a function of the slot only: the read in slot 0 of a fragment is flagged read 1 and the read in slot 1 is flagged '
@@ -719,6 +748,28 @@ def r9(ctx):
         ctx.emit('C05-R9', bool(rs) and not bad, FRAGMENT, l, f'slot {slot}: every path through the loop body stores {want}' if rs and not bad else
                  f'slot {slot}: a path leaves the mate flags at {bad[0] if bad else None} (expected {want}): a mate returned alone is written without its mate number',
                  key=f'mate-flags:slot{slot}', what='Fragment.__init__: the mate flags are not forced from the slot index on every path')
+
+
+@rule('C05', 'C05-R10', 'a whole-contig job has no window: in one-contig-per-process mode every job entry is (contig, None, None, None, None) - with coordinates '
+                        'the region filter of the worker wakes up and drops molecules whose site lies before base 0 or at / behind the contig end (clipped or '
+                        'site-shifted fragments at a contig border)')
+def r10(ctx):
+    f = ctx.fn(BTM, MP)
+    branch = [s_ for s_ in walk_no_nested(f) if isinstance(s_, ast.If) and 'one_contig_per_process' in names_in(s_.test)]
+    tuples = []
+    for b in branch:
+        body = b.body if not (isinstance(b.test, ast.UnaryOp) and isinstance(b.test.op, ast.Not)) else b.orelse
+        for st in body:
+            for t in ast.walk(st):
+                if isinstance(t, ast.Tuple) and len(t.elts) == 5 and isinstance(t.ctx, ast.Load):
+                    tuples.append(t)
+    ctx.need('C05-R10', len(tuples), 2, 'job entries built in the one-contig-per-process branch')
+    bad = [(t, k) for t in tuples for k, e in enumerate(t.elts[1:], 1) if not (isinstance(e, ast.Constant) and e.value is None)]
+    for t, k in bad[:2]:
+        ctx.emit('C05-R10', False, BTM, t, f'job entry `{src(t)}` carries `{src(t.elts[k])}` in field {k} (start / end / fetch window): the worker then filters molecules by site coordinate '
+                 f'inside a job that is meant to take the whole contig', key='contig-job-has-no-window', what=f'{MP}: whole-contig job carries a fetch window')
+    if not bad:
+        ctx.emit('C05-R10', True, BTM, tuples[0], f'{len(tuples)} job entries of the one-contig-per-process branch carry no window', key='contig-job-has-no-window')
 
 
 META = {
